@@ -18,6 +18,7 @@ import tempfile
 
 import numpy as np
 
+from mc import common
 from mc.engine import cli, hist
 from mc.engine.core import Acc, pmap_acc, shard
 
@@ -645,6 +646,13 @@ def override_part(ctx):
     return acc
 
 
+def builtins_input_swap(fn):
+    import builtins
+    old = builtins.input
+    builtins.input = fn
+    return old
+
+
 def config_values_part(ctx):
     """values a config may hold beyond plain numbers and strings: an explicit
     null / false / 0 / empty list for an option that the command line sets,
@@ -693,6 +701,49 @@ def config_values_part(ctx):
                           "uses %r, the config file has priority" %
                           (tool, " ".join(argv), key, json.dumps(val), got),
                           {"tool": tool, "key": key}, {"kind": "cfg-value"})
+    # evo_config's own command line must hand every argument of the list on
+    # to the generator (also those that sound like options of its own)
+    from evo import main_config
+    import sys
+    for argv in (["--no_warnings", "--align"],
+                 ["--silent", "--plot_mode", "xz"],
+                 ["--verbose", "--t_offset", "-0.5"],
+                 ["--debug"], ["--no_warnings"],
+                 ["--align", "--no_warnings", "--n_to_align", "7"]):
+        out = os.path.join(wd, "gen_cli.json")
+        if os.path.exists(out):
+            os.remove(out)
+        old_argv, old_in = sys.argv, builtins_input_swap(lambda p="": "y")
+        sys.argv = ["evo_config", "generate"] + argv + ["-o", out]
+        err = None
+        try:
+            with common.quiet():
+                main_config.main()
+        except SystemExit as e:
+            if e.code not in (None, 0):
+                err = "exit %s" % e.code
+        except Exception as e:
+            err = "%s: %s" % (type(e).__name__, e)
+        finally:
+            sys.argv = old_argv
+            builtins_input_swap(old_in)
+            cli._reset_logging()
+        want = main_config.generate(list(argv))
+        acc.count("evaluations")
+        acc.count("transitions")
+        acc.count("nontrivial")
+        acc.outcome("generate-cli")
+        got = None
+        if err is None and os.path.exists(out):
+            with open(out) as f:
+                got = json.load(f)
+        if got != want:
+            acc.violation("config-values", "evo_config generate %s -o f: "
+                          "wrote %s, the argument list means %s%s" %
+                          (" ".join(argv), got, want,
+                           " (%s)" % err if err else ""),
+                          {"tool": "config", "key": " ".join(argv)},
+                          {"kind": "generate-cli"})
     # a package setting that only shows in the run: the console log format
     old = os.getcwd()
     os.chdir(wd)
